@@ -293,14 +293,15 @@ def evaluate(prop, harness_names, tier, seed, stats, timeout=3600):
             if r.get('nt'):
                 stats['nt_keys'].add(key)
             if len(stats['samples']) < 6 and (stats['evaluations'] % 997 == 1 or len(stats['samples']) < 2):
-                stats['samples'].append({k: r[k] for k in ('case', 'src', 'impl') if k in r})
+                stats['samples'].append({k: (r[k] if len(str(r[k])) < 1500 else str(r[k])[:1500] + '...') for k in ('case', 'src', 'impl') if k in r})
             if r.get('oracle'):
                 violations.append(dict(r, why='direct oracle: ' + r['oracle'], harness=name))
             if r.get('case'):
                 m, s = outs[oi]
                 oi += 1
-                if m == 'unsupported' or s == 'unsupported':
-                    stats['skipped']['unsupported'] = stats['skipped'].get('unsupported', 0) + 1
+                if m.startswith('unsupported') or s == 'unsupported' or m == 'fuel':
+                    why = 'model-fuel' if m == 'fuel' else 'unsupported'
+                    stats['skipped'][why] = stats['skipped'].get(why, 0) + 1
                     continue
                 stats['compared'] += 1
                 impl = r['impl']
